@@ -2,6 +2,8 @@
    one request per line (a command word followed by integers; lists are
    length-prefixed), and prints one answer line per request. *)
 open Loxmodel_ext
+type string = Stdlib.String.t
+type coq_string = Loxmodel_ext.string
 
 let rec nat_of_int n = if n <= 0 then O else S (nat_of_int (n - 1))
 let int_of_nat n = let rec go acc = function O -> acc | S m -> go (acc + 1) m in go 0 n
@@ -12,13 +14,13 @@ let rec int_of_pos = function XH -> 1 | XO p -> 2 * int_of_pos p | XI p -> 2 * i
 let int_of_z = function Z0 -> 0 | Zpos p -> int_of_pos p | Zneg p -> - (int_of_pos p)
 
 (* request cursor *)
-type cur = { toks : string array; mutable i : int }
+type cur = { toks : Stdlib.String.t array; mutable i : int }
 let next c = let s = c.toks.(c.i) in c.i <- c.i + 1; s
 let int c = int_of_string (next c)
 let z c = z_of_int (int c)
 let nat c = nat_of_int (int c)
 let bool c = int c <> 0
-let list f c = let n = int c in List.init n (fun _ -> f c)
+let list f c = let n = int c in Stdlib.List.init n (fun _ -> f c)
 let range c = let b = z c in let e = z c in (b, e)
 
 let out = Buffer.create 4096
@@ -27,7 +29,7 @@ let pz x = pi (int_of_z x)
 let pn x = pi (int_of_nat x)
 let pb b = pi (if b then 1 else 0)
 let ps s = Buffer.add_string out s; Buffer.add_char out ' '
-let plist f l = pi (List.length l); List.iter f l
+let plist f l = pi (Stdlib.List.length l); Stdlib.List.iter f l
 let prange (b, e) = pz b; pz e
 
 let rec class_expr c =
@@ -89,10 +91,10 @@ let rec ser_val v =
   match v with
   | VNil -> "nil"
   | VTok (ty, id) -> if int_of_z ty = 0 && false then "Z" else "T(" ^ string_of_int (int_of_z ty) ^ "," ^ string_of_int (int_of_nat id) ^ ")"
-  | VErr (t, ex) -> "E(" ^ ser_val t ^ ",[" ^ String.concat " " (List.map (fun k -> string_of_int (int_of_z k)) ex) ^ "])"
-  | VNode (p, args) -> "N(" ^ String.concat "," (string_of_int (cl (int_of_z p)) :: List.map ser_val args) ^ ")"
+  | VErr (t, ex) -> "E(" ^ ser_val t ^ ",[" ^ Stdlib.String.concat " " (Stdlib.List.map (fun k -> string_of_int (int_of_z k)) ex) ^ "])"
+  | VNode (p, args) -> "N(" ^ Stdlib.String.concat "," (string_of_int (cl (int_of_z p)) :: Stdlib.List.map ser_val args) ^ ")"
   | VList [] -> "Z"
-  | VList l -> "L(" ^ String.concat "," (List.map ser_val l) ^ ")"
+  | VList l -> "L(" ^ Stdlib.String.concat "," (Stdlib.List.map ser_val l) ^ ")"
   | VZero -> "Z"
 
 let discard_fn v =
@@ -140,11 +142,11 @@ let () =
     let w = list z c in
     let tb = Hashtbl.find tabs id in
     cur_cls := (try Hashtbl.find cls_tab id with Not_found -> [||]);
-    let is_user p = (match List.nth_opt tb.t_kinds p with Some KUser -> true | _ -> false) in
+    let is_user p = (match Stdlib.List.nth_opt tb.t_kinds p with Some KUser -> true | _ -> false) in
     let fin tag s =
       ps tag; pn s.pos;
-      let evs = List.filter_map (ser_event is_user) (List.rev s.trace) in
-      ps ("[" ^ String.concat " " evs ^ "]");
+      let evs = Stdlib.List.filter_map (ser_event is_user) (Stdlib.List.rev s.trace) in
+      ps ("[" ^ Stdlib.String.concat " " evs ^ "]");
       (match s.stack with
        | top :: _ -> ps (ser_val top.i_sym)
        | [] -> ps "-") in
@@ -155,11 +157,106 @@ let () =
     | Crash -> ps "CRASH"
     | Fuel -> ps "FUEL")
 
+
+(* ---- lexer tables, NFAs, rule sets, kept by id ---- *)
+let lexmodes : (int, z list list) Hashtbl.t = Hashtbl.create 16
+let nfas : (int, (nfa * nat list) list) Hashtbl.t = Hashtbl.create 16
+let rulesets : (int, rule list list) Hashtbl.t = Hashtbl.create 16
+
+let nat_list_eqb a b = (Stdlib.List.length a = Stdlib.List.length b) && Stdlib.List.for_all2 (fun x y -> int_of_nat x = int_of_nat y) a b
+
+let rec re_of c =
+  match int c with
+  | 0 -> REmpty
+  | 1 -> REps
+  | 2 -> let e = class_expr c in
+         (match get_ranges e with Some rs -> RCls rs | None -> failwith "get_ranges: fuel")
+  | 3 -> let a = re_of c in let b = re_of c in RCat (a, b)
+  | 4 -> let a = re_of c in let b = re_of c in RAlt (a, b)
+  | _ -> let a = re_of c in RStar a
+
+let pseg = function
+  | SegTok (ty, b, e) -> ps ("T:" ^ string_of_int (int_of_z ty) ^ ":" ^ string_of_int (int_of_z b) ^ ":" ^ string_of_int (int_of_z e))
+  | SegDiscard (b, e) -> ps ("D:" ^ string_of_int (int_of_z b) ^ ":" ^ string_of_int (int_of_z e))
+  | SegError (b, e) -> ps ("E:" ^ string_of_int (int_of_z b) ^ ":" ^ string_of_int (int_of_z e))
+  | SegEOF (b, e) -> ps ("F:" ^ string_of_int (int_of_z b) ^ ":" ^ string_of_int (int_of_z e))
+
+let plres = function
+  | LDone segs -> ps "done"; pi (Stdlib.List.length segs); Stdlib.List.iter pseg segs
+  | LCrash -> ps "crash"
+  | LFuel -> ps "fuel"
+
+let pverdict name closed_fn = function
+  | VOk visited -> ps "ok"; pi (Stdlib.List.length visited); pb (closed_fn visited)
+  | VDiff (path, why) -> ps "diff"; pz why; plist pz path
+  | VFuel -> ps "fuel"
+
+let () =
+  reg "lexload" (fun c ->
+    let id = int c in
+    let ms = list (fun c -> list z c) c in
+    Hashtbl.replace lexmodes id ms; ps "ok");
+  reg "lexwf" (fun c ->
+    let id = int c in
+    let ms = Hashtbl.find lexmodes id in
+    pb (modes_wf ms);
+    plist (fun m -> pb (mode_progress_ok m); pb (mode_terminal_last m); pz (mode_nstates m)) ms);
+  reg "nfaload" (fun c ->
+    let id = int c in
+    let ms = list (fun c ->
+      let states = list (fun c ->
+        let acc = bool c in let ng = bool c in let rl = nat c in
+        let has = bool c in let pos = z c in
+        let acts = list (fun c -> let t = z c in let p = z c in (t, p)) c in
+        let eps = list nat c in
+        let edges = list (fun c -> let lo = z c in let hi = z c in let tos = list nat c in ((lo, hi), tos)) c in
+        { n_accept = acc; n_ng = ng; n_rule = rl; n_acts = (if has then Some (pos, acts) else None); n_eps = eps; n_edges = edges }) c in
+      let start = list nat c in
+      (states, start)) c in
+    Hashtbl.replace nfas id ms; ps "ok");
+  reg "equivnfa" (fun c ->
+    let id = int c in let fuel = nat c in
+    let ms = Hashtbl.find lexmodes id and ns = Hashtbl.find nfas id in
+    let ra = nfa_auto ns and rs = nfa_start ns in
+    pverdict "nfa" (fun v -> closed nat_list_eqb ms ra rs v) (equiv_check nat_list_eqb ms ra rs fuel));
+  reg "reload" (fun c ->
+    let id = int c in
+    let ms = list (fun c -> list (fun c ->
+      let r = re_of c in
+      let acts = list (fun c -> let t = z c in let p = z c in (t, p)) c in
+      let ng = bool c in
+      { r_re = r; r_acts = acts; r_ng = ng }) c) c in
+    Hashtbl.replace rulesets id ms;
+    ps "ok"; plist (fun rules -> pb (wf_rulesb rules)) ms);
+  reg "equivre" (fun c ->
+    let id = int c in let fuel = nat c in
+    let ms = Hashtbl.find lexmodes id and rs = Hashtbl.find rulesets id in
+    let ra = re_auto rs and st = re_start rs in
+    pverdict "re" (fun v -> closed st_eqb ms ra st v) (equiv_check st_eqb ms ra st fuel));
+  reg "lex" (fun c ->
+    let id = int c in let fuel = nat c in
+    let inp = list (fun c -> let r = z c in let w = z c in (r, w)) c in
+    let ms = Hashtbl.find lexmodes id in
+    let log = ref [] in
+    let push s r =
+      let res = push_rune ms s r in
+      (match res with Some (code, _) -> log := (int_of_z r, int_of_z code) :: !log | None -> ());
+      res in
+    let res = lex_input push (fun s -> s.sm_token) sm_reset sm_init fuel inp in
+    plres res;
+    ps "|";
+    Stdlib.List.iter (fun (r, code) -> ps (string_of_int r ^ ":" ^ string_of_int code)) (Stdlib.List.rev !log));
+  reg "lexre" (fun c ->
+    let id = int c in let fuel = nat c in
+    let inp = list (fun c -> let r = z c in let w = z c in (r, w)) c in
+    let rs = Hashtbl.find rulesets id in
+    plres (g_lex (re_auto rs) (re_start rs) (nat_of_int (Stdlib.List.length rs)) fuel inp))
+
 let () =
   try
     while true do
       let line = input_line stdin in
-      let toks = Array.of_list (List.filter (fun s -> s <> "") (String.split_on_char ' ' line)) in
+      let toks = Array.of_list (Stdlib.List.filter (fun s -> s <> "") (Stdlib.String.split_on_char ' ' line)) in
       if Array.length toks > 0 then begin
         let c = { toks; i = 0 } in
         let cmd = next c in
